@@ -62,6 +62,8 @@ type RunConfig struct {
 	FinalStop   bool           `json:"final_stop"`             // the action list ends with an explicit stop
 	PSFirst     int            `json:"ps_first_pct,omitempty"` // when both netlink clients wait: chance (percent) that the periodic one is served first (0 = 50)
 	CoLoc       bool           `json:"coloc,omitempty"`     // SMF 1 sends from SMF 0's IP address, another port
+	Startup     *StartupPlan   `json:"startup,omitempty"` // C20: the whole input of a start-up simulation
+	EarlyStop   bool           `json:"early_stop,omitempty"` // C17: the stop request arrives while the PFCP server is still starting
 	LogYield    int            `json:"log_yield_pct,omitempty"` // percent of go-upf's log statements that park their goroutine for a few ns (needs a debug/trace log level)
 	FreePlan    bool           `json:"free_plan,omitempty"` // lock-step phase of a free-running seed: the workload favours periodic URRs
 	FreeRun     bool           `json:"free_run,omitempty"`  // C17: execute the action list in free-running mode (free.go)
@@ -107,6 +109,7 @@ type Sim struct {
 	stepA  atomic.Int64 // the same, for go-upf's goroutines (sockets, kernel, log)
 	kick   chan struct{}
 
+	listenGate chan struct{}
 	yielders atomic.Int64 // goroutines parked in yieldHook
 	yieldOn  atomic.Bool
 	free     bool // free-running mode (free.go): go-upf's goroutines never take s.emu
@@ -568,6 +571,12 @@ func (h fatalHook) Fire(e *logrus.Entry) error {
 }
 
 func (s *Sim) boot() {
+	s.installSeams()
+	s.bootRest()
+}
+
+// installSeams points every seam at this simulation.
+func (s *Sim) installSeams() {
 	lvl, err := logrus.ParseLevel(s.cfg.LogLevel)
 	if err != nil {
 		lvl = logrus.ErrorLevel
@@ -600,13 +609,19 @@ func (s *Sim) boot() {
 	simhook.SetListen(func(network string, laddr *net.UDPAddr) (simhook.PacketBackend, error) {
 		switch laddr.Port {
 		case factory.UpfPfcpDefaultPort:
+			if s.listenGate != nil {
+				<-s.listenGate // the server is "still starting" until the simulator says so
+			}
 			return s.n4, nil
 		case factory.UpfGtpDefaultPort:
 			return s.gtpu, nil
 		}
 		return nil, fmt.Errorf("simnet: unexpected listen %v", laddr)
 	})
+	nl.AfterCloseYield = nil
+}
 
+func (s *Sim) bootRest() {
 	cfg := &factory.Config{
 		Version: "1.0.3",
 		Pfcp: &factory.Pfcp{
@@ -650,6 +665,10 @@ func (s *Sim) boot() {
 		s.srv.VerifSetTxSeq(s.cfg.TxSeqStart)
 	}
 	s.drv.HandleReport(simHandler{s})
+	if s.cfg.EarlyStop {
+		s.earlyStop()
+		return
+	}
 	s.srv.Start(&s.wg)
 	s.settle()
 	s.logEvent("booted driver=%s", s.cfg.Driver)
@@ -734,11 +753,41 @@ func (s *Sim) stop2() {
 		close(wdone)
 	}()
 	s.settle()
+	if s.cfg.LogYield > 0 {
+		// a ticker goroutine may be parked at its log statement (yieldHook) for a few
+		// hundred nanoseconds yet: let them pass before judging
+		time.Sleep(time.Microsecond)
+		s.settle()
+	}
 	select {
 	case <-wdone:
 	default:
 		s.shutdownStuck("goroutines still running after Stop and Close")
 	}
+}
+
+// earlyStop: the stop request (SIGTERM) arrives while the PFCP server is still starting:
+// its goroutine exists but has not opened its socket yet. pkg/app would then run
+// Stop(); Close() and wait for the wait group, exactly as at any other moment.
+func (s *Sim) earlyStop() {
+	s.listenGate = make(chan struct{})
+	s.srv.Start(&s.wg)
+	synctest.Wait() // the server goroutine is inside ListenUDP
+	s.stopped1, s.stopped2 = true, true
+	s.logEvent("stop (while starting)")
+	s.probe("stop.while-starting", 1)
+	s.closeDone = make(chan struct{})
+	s.waitDone = make(chan struct{})
+	go func() {
+		s.srv.Stop()
+		s.drv.Close()
+		close(s.closeDone)
+		s.wg.Wait()
+		close(s.waitDone)
+	}()
+	synctest.Wait()
+	close(s.listenGate) // the socket comes into being now
+	s.settle()
 }
 
 // stopMidTurn: Stop() and Close() issued while the event loop is inside a turn.
@@ -766,16 +815,20 @@ func (s *Sim) checkMidTurnStop() {
 		return
 	}
 	s.settle()
+	when := "while the event loop was waiting for a data-plane answer"
+	if s.cfg.EarlyStop {
+		when = "while the PFCP server was still starting (its goroutine had not opened the socket yet)"
+	}
 	select {
 	case <-s.closeDone:
 	default:
-		s.shutdownStuck("Driver.Close() does not return (Stop and Close were issued while the event loop was waiting for a data-plane answer)")
+		s.shutdownStuck("Stop(); Close() does not return: issued " + when)
 		return
 	}
 	select {
 	case <-s.waitDone:
 	default:
-		s.shutdownStuck("goroutines still running after Stop and Close issued while the event loop was waiting for a data-plane answer")
+		s.shutdownStuck("goroutines still running after Stop and Close issued " + when)
 	}
 }
 
@@ -1007,7 +1060,11 @@ func Run(t *testing.T, cfg RunConfig, actions []Action, verbose bool) *RunResult
 			s.gtpu = newSock(s, "gtpu")
 			s.model = newModel(s)
 			s.gen = newGen(s)
-			if cfg.FreeRun {
+			if cfg.Profile == "C20" {
+				res.Actions = []Action{}
+				s.runStartup()
+				// res.NonTrivial is set by the run itself
+			} else if cfg.FreeRun {
 				res.Actions = actions
 				s.runFree(actions)
 				res.NonTrivial = s.probeM["free.sends"] >= 3
